@@ -122,3 +122,18 @@ Theorem C20_judge_submatrix_roundtrip_sound : forall rec ty m n M rest rs cs rc 
   judge_matutil rec = 0%Z -> all_lt m rs = true -> all_lt n cs = true -> rc = 0%Z /\ r = RSub m n rs cs.
 Proof. exact judge_matutil_subio. Qed.
 Print Assumptions C20_judge_submatrix_roundtrip_sound.
+
+(* ---------- edge-list reader ---------- *)
+Require Import Cmr.EdgeModel.
+Require Cmr.EdgeProofs.
+Theorem C20_edgelist_reading_stops_at_short_line : forall names l rest,
+  (length (tokens l) < 2)%nat -> parse_edges names (l :: rest) = Some (names, []).
+Proof. exact EdgeProofs.parse_edges_stops_at_short_line. Qed.
+Print Assumptions C20_edgelist_reading_stops_at_short_line.
+
+Theorem C20_edgelist_roundtrip : forall names es,
+  EdgeProofs.names_ok names -> EdgeProofs.seen_after 0 es = Some (length names) ->
+  (forall u v e, In (u, v, e) es -> Z.abs e < 10 ^ 80) ->
+  parse_edges [] (lines (EdgeProofs.print_edgelist names es)) = Some (names, es).
+Proof. exact EdgeProofs.parse_print_edgelist. Qed.
+Print Assumptions C20_edgelist_roundtrip.
